@@ -13,6 +13,14 @@ deferred writer and the length of its queue are compared with the model (`crashR
 Lean specification (`specUnchangedB`, `specSuccessB` — proved equivalent to the property's statement in
 `Properties/C20.lean`) evaluated on the real before/after listings.
 
+Stream `unnamed-stage`: the translator (`harness/tables/output.py` -> Generated/OutputTables.lean) reads the
+call sequence of the three function bodies from the CURRENT source; the Lean side (`Output.unnamedCalls`, driver
+op `unnamed`) returns the non-benign calls that the model's stage list does not name (constructors such as
+`BuildSystem(...)`, `np.loadtxt` of -grid, helpers one level down, anything a later edit inserts).  Each one that
+resolves through the program's module namespace and is reached by a variant becomes a crash point of its own
+(label `src:<callee>`), judged exactly like the named stages.  `Properties/C20.lean` proves by `decide` on the same
+tables that the stage lists are ordered like the source and that nothing but benign calls follows the flush.
+
 The `DeferredFileWriter` singleton is reset (`close()`, which drops queued temporary files) before every
 run and its `_tmpdir` is pointed to a per-run directory so that temporary files can be observed.
 Same-process reuse after a failed run is outside the property's quantifier; the stream `stale-queue`
@@ -33,6 +41,7 @@ RULE = ("output names: default + no suffix / other suffix / several dots / upper
         "3 programs x option variants x every stage index of the model's stage list (crash point) + the "
         "successful run, x pre-existing directory contents (empty / other files / existing output / existing "
         "output with backups #name.1#, gaps, look-alike names; random contents in the thorough tier); "
+        "+ a crash point at every non-benign call of the CURRENT source that the stage list does not name (translator); "
         "distinct = (program, variant, crash index, directory state); trivial = none")
 
 OLD = "OLD CONTENT\n"
@@ -89,7 +98,8 @@ BLD_TEXT = "[ molecule ]\nA 0 1\n[ sphere ]\nRA 1 3 in 2.5 2.5 2.5 2.4\n"
 
 
 def write_inputs(indir):
-    files = {"ex.ff": FF_TEXT, "seq.txt": "AA AA BB\n", "s.top": top_text(), "o.bld": BLD_TEXT}
+    files = {"ex.ff": FF_TEXT, "seq.txt": "AA AA BB\n", "s.top": top_text(), "o.bld": BLD_TEXT,
+             "grid.dat": "".join("%.1f %.1f %.1f\n" % (x, y, z) for x in (1, 3, 5) for y in (1, 3, 5) for z in (1, 3, 5))}
     for name, text in files.items():
         with open(os.path.join(indir, name), "w") as handle:
             handle.write(text)
@@ -113,6 +123,8 @@ def variants():
             extra = dict(kwargs)
             if extra.pop("build", False):
                 extra["build"] = [Path(indir) / "o.bld"]
+            if extra.pop("grid", False):
+                extra["grid"] = Path(indir) / "grid.dat"          # -grid: np.loadtxt is a stage of its own
             polyply.gen_coords(toppath=Path(indir) / "s.top", outpath=outpath, name="t",
                                box=np.array([6., 6., 6.]), **extra)
         return call
@@ -128,7 +140,7 @@ def variants():
         ("gen_params", "seq_file", {"seq_file": True}, "out.itp", gp_file),
         ("gen_coords", "plain", {}, "out.gro", gc()),
         ("gen_coords", "split+build+check", {"split": True, "build": True, "skip_filter": True}, "out.gro",
-         gc(split=["RA:RX-X:RY-Y"], build=True, skip_filter=True)),
+         gc(split=["RA:RX-X:RY-Y"], build=True, skip_filter=True, grid=True)),
         ("gen_seq", "plain", {}, "seq.json", gs()),
         ("gen_seq", "mods", {"mods": True}, "seq.json", gs(modifications=["0:END"])),
     ]
@@ -200,6 +212,71 @@ def targets():
         },
     }
     return table
+
+
+class CallableProxy:
+    """stands in for a class (or function) in a module namespace: calling it is the stage, every other use
+    (attribute access such as classmethods) goes to the original"""
+
+    def __init__(self, orig, session, label):
+        self.__dict__["_orig"] = orig
+        self.__dict__["_session"] = session
+        self.__dict__["_label"] = label
+
+    def __call__(self, *args, **kwargs):
+        self._session.hit(self._label)
+        return self._orig(*args, **kwargs)
+
+    def __getattr__(self, name):
+        return getattr(self._orig, name)
+
+
+def program_module(prog):
+    import polyply.src.gen_itp as gen_itp
+    import polyply.src.gen_coords as gen_coords
+    import polyply.src.gen_seq as gen_seq
+    return {"gen_params": gen_itp, "gen_coords": gen_coords, "gen_seq": gen_seq}[prog]
+
+
+def resolve_source_call(prog, name):
+    """callee of the source call table (tables/output.py) -> (object, attribute) through the namespace of the
+    program's module, or None (unknown receiver, literal, no longer there)"""
+    parts = name.split(".")
+    if parts[0] in ("?", "<const>"):
+        return None
+    obj = program_module(prog)
+    for part in parts[:-1]:
+        obj = getattr(obj, part, None)
+        if obj is None:
+            return None
+    target = getattr(obj, parts[-1], None)
+    if not callable(target):
+        return None
+    import inspect
+    if inspect.isclass(target) and obj is not program_module(prog):
+        return None          # a class of another package is not replaced (isinstance tests elsewhere use the name)
+    return obj, parts[-1]
+
+
+def unnamed_targets(ctx, prog, flags):
+    """the non-benign calls of the CURRENT source of `prog` that the model's stage list does not name
+    (Lean: `Output.unnamedCalls` on Generated/OutputTables), as extra interposition targets
+    {label: (object, attribute, 'call')} and {label: the named stage that follows it in the source}"""
+    answer = ctx.driver.ask([dict(op="unnamed", prog=prog, flags=flags)])[0]
+    extra, follows = {}, {}
+    for name, depth, nxt in answer["unnamed"]:
+        label = "src:" + name
+        if label in extra:
+            continue
+        target = resolve_source_call(prog, name)
+        if target is None:
+            ctx.tally(unnamed_stage_unresolvable="%s:%s" % (prog, name))
+            continue
+        extra[label] = (target[0], target[1], "call")
+        follows[label] = nxt
+    if not answer.get("order") or not answer.get("quiet"):
+        ctx.tally(source_order="%s: order=%s quiet-after-flush=%s" % (prog, answer.get("order"), answer.get("quiet")))
+    return extra, follows
 
 
 class HandleProxy:
@@ -307,6 +384,9 @@ class Session:
                 return HandleProxy(orig(*args, **kwargs), session)
             return opener
 
+        if how == "call":
+            return CallableProxy(orig, session, label)
+
         def wrapper(*args, **kwargs):
             session.hit(label)
             return orig(*args, **kwargs)
@@ -384,8 +464,10 @@ def output_names(default):
     """output file names a user may ask for: the programs must write exactly there whatever the name looks
     like (no suffix, another suffix, several dots, upper-case suffix, blanks, a trailing dot part)"""
     ext = os.path.splitext(default)[1]            # .itp / .gro / .json
-    return ["coords", "melt.300K", "run_1.5nm", "start" + ext.upper(), "my out" + ext, "a.b.c" + ext,
-            default + ".bak", "v2." + default]
+    # the suffix of ANOTHER structure / parameter format is a name like any other (model.pdb for gen_coords)
+    other = {".gro": ".pdb", ".itp": ".top", ".json": ".txt"}.get(ext, ".dat")
+    return ["coords", "model" + other, "melt.300K", "run_1.5nm", "start" + ext.upper(), "my out" + ext, "a.b.c" + ext,
+            default + ".bak", "v2." + default, "MODEL" + other.upper()]
 
 
 def name_class(out, default):
@@ -525,6 +607,8 @@ def plan_variant(ctx, prog, vname, flags, out, call, table, indir, scratch):
     """reference run (no fault): trace, write chunks; model stage list; returns the plan or None"""
     outdir = tempfile.mkdtemp(dir=scratch)
     tmpdir = tempfile.mkdtemp(dir=scratch)
+    extra, follows = unnamed_targets(ctx, prog, flags)
+    table = dict(table, **extra)
     session, error = execute(prog, call, indir, outdir, out, table, tmpdir=tmpdir)
     replay = dict(program=prog, variant=vname, crash=None, state="empty")
     if error is not None or session.crashed:
@@ -562,13 +646,34 @@ def plan_variant(ctx, prog, vname, flags, out, call, table, indir, scratch):
     ctx.correspond("stage-order:%s" % prog, canon_trace(rows, observed), canon_trace(rows, expected), replay)
     ctx.traces += 1
     content = "".join(chunks)
+    if not os.path.exists(os.path.join(outdir, out)):
+        # the program returned normally, yet there is no output (e.g. the writer flushed before the file was
+        # written): the success clause fails on this very run
+        what = ("%s (%s) finished without error on a valid input in an empty directory but %r does not exist "
+                "(directory: %s)" % (prog, vname, out, sorted(os.listdir(outdir))))
+        if prog in ("gen_params", "gen_coords"):
+            ctx.oracle_fail("success-without-complete-file-or-backup", what, dict(replay, files={}))
+        else:
+            ctx.tie_broken("correspondence", "correspondence:reference-run:%s" % prog, what, replay)
+        return None
     with open(os.path.join(outdir, out), newline="") as handle:
         produced = handle.read()
     if produced != content:
         ctx.tie_broken("correspondence", "correspondence:recorded-writes",
                        "%s/%s: text written through the interposed handle differs from the file" % (prog, vname), replay)
+    # source calls the stage list does not name and that this variant reaches: (label, model crash index = index
+    # of the named stage that follows in the source; a fault there leaves the model in the same state)
+    row_labels = [label for _, label in rows]
+    extras = []
+    for label in session.trace:
+        if label in extra:
+            nxt = follows.get(label)
+            if nxt in row_labels:
+                extras.append((label, row_labels.index(nxt)))
+            ctx.tally(unnamed_stage="%s:%s" % (prog, label[4:]))
     return dict(prog=prog, vname=vname, flags=flags, out=out, call=call, rows=rows, chunks=chunks, half=half,
-                content=content, unresolved=unresolved, nwrites=len(session.writes), write_label=write_label)
+                content=content, unresolved=unresolved, nwrites=len(session.writes), write_label=write_label,
+                table=table, extras=extras)
 
 
 def search_without_plan(ctx, prog, vname, flags, out, call, table, indir, scratch):
@@ -685,7 +790,8 @@ def judge(ctx, case, answers):
             ctx.oracle_fail("output-touched-by-failed-run",
                             "%s (%s, output %r) failed at stage %s (%s) before writing, yet the output directory "
                             "changed: before %s after %s" % (plan["prog"], plan["vname"], replay.get("out"), crash,
-                                                             plan["rows"][crash][1], case["before"], case["after"]),
+                                                             replay.get("crash_label") or plan["rows"][crash][1],
+                                                             case["before"], case["after"]),
                             replay)
     elif crash is None and plan["prog"] in ("gen_params", "gen_coords"):
         judged = "success"
@@ -706,8 +812,11 @@ def judge(ctx, case, answers):
         (crash is None or plan["rows"][crash][0] in ("writeDeferred", "flush", "openDirect")) and \
         plan["vname"] in ("seq", "plain")
     ctx.tally(output_name=name_class(replay.get("out", plan["out"]), plan["out"]))
+    unnamed = str(replay.get("crash_label") or "").startswith("src:")
+    if unnamed:
+        ctx.tally(stream="unnamed-stage")
     ctx.case((plan["prog"], plan["vname"], crash, case["state"], replay["relative"], replay.get("xdev", False),
-              replay.get("out")),
+              replay.get("out"), replay.get("crash_label") if unnamed else None),
              sample=None if not informative or ctx.rng.random() < 0.6 else dict(input=dict(program=plan["prog"], variant=plan["vname"], crash=crash,
                                     stage=plan["rows"][crash][1] if crash is not None else None,
                                     state=case["state"]),
@@ -786,7 +895,8 @@ class Bench:
                 self.plans.append(plan)
 
     def one(self, plan, sname, files, point, relative=False, xdev=False, out_name=None):
-        return run_one(self.ctx, plan, self.table[plan["prog"]], self.indir, self.scratch, sname, files, point,
+        return run_one(self.ctx, plan, plan.get("table", self.table[plan["prog"]]), self.indir, self.scratch, sname,
+                       files, point,
                        relative=relative, xdev=xdev, out_name=out_name)
 
     def judge_all(self, cases):
@@ -809,8 +919,13 @@ def run_plans(ctx):
             for sname, files in states:
                 for point in points:
                     cases.append(bench.one(plan, sname, files, point))
-            # relative output path with the output directory as working directory
+            # stream unnamed-stage: a fault at every call of the source that the stage list does not name
+            # (constructors, np.loadtxt, helpers one level down ...), on a directory that holds the output
             by_name = dict(states)
+            for label, idx in plan.get("extras", []):
+                for sname in ("exists+bk1",) + (("empty", "exists+gap") if ctx.thorough else ()):
+                    cases.append(bench.one(plan, sname, dict(by_name[sname]), (idx, label, None)))
+            # relative output path with the output directory as working directory
             for point in points:
                 cases.append(bench.one(plan, "exists+bk1", dict(by_name["exists+bk1"]), point, relative=True))
             # other output file NAMES (with look-alike neighbours in the directory), absolute / relative /
@@ -826,7 +941,7 @@ def run_plans(ctx):
             some_points = [pt for pt in points if pt[0] is None or pt[0] in wanted]
             names = output_names(plan["out"])
             if not ctx.thorough:
-                names = names[:4] + ctx.rng.sample(names[4:], 2)
+                names = names[:5] + ctx.rng.sample(names[5:], 1)
             for n_idx, name in enumerate(names):
                 mode = [False, True, "subdir"][n_idx % 3]
                 for sname, files in name_states(name, plan["out"])[:(3 if ctx.thorough else 2)]:
@@ -849,6 +964,8 @@ def run(ctx):
         "atomicity of shutil.move / os.rename, tempfile.mkstemp freshness (OS; modelled as map updates)",
         "directory entries are mapped to the model's structured paths by harness/c20.py:path_json "
         "(#<name>.<k># with canonical decimal k = backup k of <name>)",
+        "harness/tables/output.py: the walk over the function bodies (source order, helpers of the same module "
+        "expanded) and its list of benign callees (builtins except open, LOGGER.*, container/string housekeeping)",
         "the fault is an exception raised on entry of the interposed stage function (or before the n-th "
         "write on the output handle); faults inside a stage function are represented by its entry",
     ]
